@@ -182,6 +182,15 @@ def fill (fo : FloatOps) (fuel : Nat) (h : H1) (value : Option Rat) (w : Rat) (w
 
 def zipAdd (a b : List Rat) : List Rat := List.zipWith (· + ·) a b
 
+/-- the counting core of `fill_n`: add the batch histogram of `data` over the current bins -/
+def fillData (fo : FloatOps) (h : H1) (data : List Pt) : H1 :=
+  let c := calc1d (h.bins fo) data
+  let st := statsOf data (allEqual (data.map (·.2))) (medianOf (data.map (·.1)))
+  { h with freq := zipAdd h.freq c.freq, err2 := zipAdd h.err2 c.err2,
+           under := if h.keep then nadd h.under c.under else h.under,
+           over := if h.keep then nadd h.over c.over else h.over,
+           stats := h.stats.add st }
+
 /-- `Histogram1D.fill_n(values, weights)` with `dropna=True` -/
 def fillN (fo : FloatOps) (fuel : Nat) (h : H1) (vs : List (Option Rat)) (ws : Option (List Rat))
     (wkind : DType) : R H1 := do
@@ -191,13 +200,7 @@ def fillN (fo : FloatOps) (fuel : Nat) (h : H1) (vs : List (Option Rat)) (ws : O
   let h := h.adapt fo fuel vals false
   if !weightsShapeOk vs ws then throw "weights shape"
   let h := if ws.isSome then h.coerce wkind else h
-  let data := maskPts vs ws
-  let c := calc1d (h.bins fo) data
-  let st := statsOf data (allEqual (data.map (·.2))) (medianOf (data.map (·.1)))
-  pure { h with freq := zipAdd h.freq c.freq, err2 := zipAdd h.err2 c.err2,
-                under := if h.keep then nadd h.under c.under else h.under,
-                over := if h.keep then nadd h.over c.over else h.over,
-                stats := h.stats.add st }
+  pure (h.fillData fo (maskPts vs ws))
 
 /-- `has_same_bins` (exact comparison) -/
 def sameBins (fo : FloatOps) (a b : H1) : Bool := a.bins fo == b.bins fo
